@@ -654,3 +654,142 @@ theorem exP_noRaise : NoRaiseAll exP exTree := by
     simp at this
 
 end CTM.Compose
+namespace CTM.Compose
+open CTM CTM.LevelLoop CTM.OutBridge CTM.Election CTM.Numeric
+
+/-- every iteration casts exactly one vote: the tally of a node sums to the
+number of drawn subsets -/
+theorem tallyVotes_sum {refs : List (List Rat)} {x : List Rat} {subs : List (List Nat)}
+    {corrOf : Nat → Nat → Rat} {tally : List Nat × List Rat}
+    (h : tallyVotes refs x subs corrOf = .ok tally) : tally.1.sum = subs.length := by
+  rw [tallyVotes_eq] at h
+  cases hn : subs.mapM (tallyIter refs x) with
+  | error e => rw [hn] at h; cases h
+  | ok near =>
+    rw [hn] at h
+    simp only [Except.map] at h
+    cases h
+    obtain ⟨hl, hspec⟩ := Election.mapM_ok_spec _ _ _ hn
+    have hrows : ∀ r ∈ Election.rowsOf near corrOf, r.1 < refs.length := by
+      intro r hr
+      have hm : r.1 ∈ (Election.rowsOf near corrOf).map (·.1) := List.mem_map.2 ⟨r, hr, rfl⟩
+      unfold Election.rowsOf at hm
+      rw [rows_fst] at hm
+      obtain ⟨q, hq, hq1⟩ := List.mem_map.1 hm
+      obtain ⟨s, _, hs⟩ := hspec q hq
+      obtain ⟨i, sc⟩ := q
+      have := nearest_lt refs x s i sc hs
+      simp only at hq1
+      omega
+    rw [tallyCell_sum _ _ hrows]
+    simp [Election.rowsOf, hl]
+
+/-- the rows handed to the accumulation loop carry the reported correlations -/
+theorem rowsOf_corr_bound (near : List (Nat × Rat)) (corrOf : Nat → Nat → Rat)
+    (h : ∀ it j, |corrOf it j| ≤ 1) : ∀ r ∈ Election.rowsOf near corrOf, |r.2| ≤ 1 := by
+  intro r hr
+  unfold Election.rowsOf at hr
+  obtain ⟨p, _, rfl⟩ := List.mem_map.1 hr
+  exact h _ _
+
+theorem columns_types_length (types votes : List Nat) (corr : List Rat) :
+    (columns types votes corr).2.2.length = (uniqSorted types).length := by
+  unfold columns
+  split
+  · rfl
+  · next h =>
+    have h1 := length_uniqSorted_le types
+    have h2 : ¬ (uniqSorted types).length < types.length := by simpa [hasDupTypes] using h
+    simp only
+    omega
+
+/-- every reported per-iteration correlation lies in [-1, 1] (it is a Pearson
+correlation: `C03.corr_range`) -/
+def CorrOK (P : ElectionParams) : Prop := ∀ p x it j, |P.corrOf p x it j| ≤ 1
+
+/-- the C03 contract of one directly assigned level where a choice was made
+(`kl` = the children of the parent with their leaves, `iters` iterations,
+`nA - 1` runners-up requested) -/
+def NodeContract (nA iters : Nat) (kl : List (Node × List Node)) (e : Entry) : Prop :=
+  e.assignment ∈ kl.map (·.1) ∧
+  (∃ k : Nat, e.prob * (iters : Rat) = (k : Rat) ∧ 1 ≤ k ∧ k ≤ iters) ∧
+  0 < e.prob ∧ e.prob ≤ 1 ∧
+  (∃ q, e.corr = some q ∧ |q| ≤ 1) ∧
+  ∃ ra rc rp, e.ru = some (ra, rc, rp) ∧
+    ra.length = rc.length ∧ rc.length = rp.length ∧ ra.length ≤ nA - 1 ∧
+    ra.Nodup ∧ e.assignment ∉ ra ∧ (∀ a ∈ ra, a ∈ kl.map (·.1)) ∧
+    (∀ q ∈ rp, 0 < q ∧ q ≤ e.prob) ∧ rp.Pairwise (· ≥ ·) ∧
+    (∀ q ∈ rc, |q| ≤ 1) ∧
+    e.prob + rp.sum ≤ 1 ∧
+    ((uniqSorted (nodeRows kl).2).length ≤ nA → e.prob + rp.sum = 1)
+
+theorem nodeRecompute_contract (P : ElectionParams) (hcorr : CorrOK P) (p : Parent)
+    (kl : List (Node × List Node)) (x : List Rat) (e : Entry)
+    (h : NodeRecompute P p kl x e) :
+    NodeContract P.nAssign (P.subsets p x).length kl e := by
+  obtain ⟨tally, ch, near, ht, hv, hlen, hc, rfl, _, _, hwin, _, _⟩ := h
+  have hsum := tallyVotes_sum ht
+  obtain ⟨k, hk1, hk2, hk3, hk4, hk5⟩ := C03.prob_whole _ _ _ _ _ _ ch hlen hsum hv hc
+  obtain ⟨r1, r2, r3, r4, r5, r6, r7, r8⟩ := C03.runners _ _ _ _ _ _ ch hlen hv hc
+  obtain ⟨s1, s2⟩ := C03.sum_le_one _ _ _ _ _ _ ch hlen hsum hv hc
+  -- correlations: the tally is `tallyCell` of rows with |corr| ≤ 1
+  have htc : ∃ n rows, tally = tallyCell n rows ∧ ∀ r ∈ rows, |r.2| ≤ 1 := by
+    have ht' := ht
+    rw [tallyVotes_eq] at ht'
+    cases hn : (P.subsets p x).mapM (tallyIter (nodeRefs P p kl) (nodeQuery P p x)) with
+    | error e => rw [hn] at ht'; cases ht'
+    | ok near' =>
+      rw [hn] at ht'
+      simp only [Except.map] at ht'
+      cases ht'
+      exact ⟨_, _, rfl, rowsOf_corr_bound near' _ (hcorr p x)⟩
+  obtain ⟨n, rows, rfl, hrows⟩ := htc
+  obtain ⟨a1, _, a3⟩ := C03.avg_corr_range _ n rows hrows _ _ _ ch hc
+  refine ⟨nodeRows_types_sub kl _ hwin, ⟨k, hk1, hk2, hk3⟩, hk4, hk5, ⟨_, rfl, a1⟩,
+    (keepRunners ch.runners).1, (keepRunners ch.runners).2.1, (keepRunners ch.runners).2.2,
+    rfl, r1, r2, r3, r4, r5, fun a ha => nodeRows_types_sub kl _ (r6 a ha), r7, r8, a3, s1, ?_⟩
+  intro hle
+  apply s2
+  rw [columns_types_length]
+  exact hle
+
+end CTM.Compose
+
+namespace CTM.Compose
+open CTM CTM.LevelLoop CTM.OutBridge CTM.Election CTM.Numeric
+
+/-- the correlation the finished record holds at a level the run voted on: the
+walk's own, else that of the nearest level above where a choice was made, else
+of the nearest below (`C03.finished_level` / `C03.single_child` on the record) -/
+theorem record_level_corr {t : RawTree} (hnd : t.hierarchy.Nodup) (o flagged : Record)
+    (raw : List (Level × Entry))
+    (h2 : raw.map (·.1) = t.hierarchy) (h3 : flagged.levels.map (·.1) = t.hierarchy)
+    (h4 : flagged.levels.map (fun le => toElectionOut le.2) =
+      Election.finishCell (raw.map (fun le => toElectionRec le.2)))
+    (h5 : ∀ l ∈ t.hierarchy, o.levels.lookup l = flagged.levels.lookup l)
+    (k : Nat) (hk : k < raw.length) :
+    ∃ e, o.levels.lookup raw[k].1 = some e ∧
+      e.corr = (raw[k].2.corr.or (corrAbove (raw.map (fun le => toElectionRec le.2)) k)).or
+        (corrBelow (raw.map (fun le => toElectionRec le.2)) k) := by
+  have hlen : flagged.levels.length = raw.length := by
+    have := congrArg List.length (h3.trans h2.symm); simpa using this
+  have hkf : k < flagged.levels.length := by omega
+  have hkey : flagged.levels[k].1 = raw[k].1 := by
+    have e1 : (flagged.levels.map (·.1))[k]? = (raw.map (·.1))[k]? := by rw [h3, h2]
+    simp only [List.getElem?_map, List.getElem?_eq_getElem hkf, List.getElem?_eq_getElem hk,
+      Option.map_some, Option.some.injEq] at e1
+    exact e1
+  have hmem : raw[k].1 ∈ t.hierarchy := by
+    rw [← h2]; exact List.mem_map.2 ⟨raw[k], List.getElem_mem hk, rfl⟩
+  refine ⟨flagged.levels[k].2, ?_, ?_⟩
+  · rw [h5 _ hmem, ← hkey]
+    exact lookup_getElem_of_nodup flagged.levels k hkf (by rw [h3]; exact hnd)
+  · have hk' : k < (raw.map (fun le => toElectionRec le.2)).length := by simpa using hk
+    have hfin := finishCell_getElem? (raw.map (fun le => toElectionRec le.2)) k hk'
+    rw [← h4, List.getElem?_map, List.getElem?_eq_getElem hkf] at hfin
+    simp only [Option.map_some, Option.some.injEq, List.getElem_map] at hfin
+    have hc := congrArg OutRec.avgCorr hfin
+    simp only [toElectionOut, toElectionRec] at hc
+    exact hc
+
+end CTM.Compose
